@@ -1423,7 +1423,9 @@ class Exec:  # an execution path
                 if self.check(key != key0) == unsat:  # key == key0
                     return val0
         # empty array
-        elif not symbolic and re.search(r"^(storage_.+|balance)_00$", str(array)):
+        elif not symbolic and re.search(
+            r"^((transient_)?storage_.+|balance)_00$", str(array)
+        ):
             # note: simplifying empty array access might have a negative impact on solver performance
             return ZERO
         return Select(array, key)
@@ -1744,12 +1746,17 @@ class SolidityStorage(Storage):
         return StorageData()
 
     @classmethod
-    def empty(cls, addr: BitVecRef, slot: int, keys: tuple) -> ArrayRef:
+    def empty(
+        cls, addr: BitVecRef, slot: int, keys: tuple, transient: bool = False
+    ) -> ArrayRef:
         num_keys = len(keys)
         size_keys = cls.bitsize(keys)
+        # note: transient storage must not share the initial array with persistent storage,
+        # since the latter may be symbolic while the former is always empty
+        prefix = "transient_storage" if transient else "storage"
         return Array(
             # note: uuid is excluded to be deterministic
-            f"storage_{id_str(addr)}_{slot}_{num_keys}_{size_keys}_00",
+            f"{prefix}_{id_str(addr)}_{slot}_{num_keys}_{size_keys}_00",
             BitVecSorts[size_keys],
             BitVecSort256,
         )
@@ -1780,7 +1787,10 @@ class SolidityStorage(Storage):
         if size_keys > 0:
             # do not use z3 const array `K(BitVecSort(size_keys), ZERO)` when not ex.symbolic
             # instead use normal smt array, and generate emptyness axiom; see load()
-            storage_addr[slot, num_keys, size_keys] = cls.empty(addr, slot, keys)
+            transient = storage is ex.transient_storage
+            storage_addr[slot, num_keys, size_keys] = cls.empty(
+                addr, slot, keys, transient
+            )
             return
 
         # size_keys == 0
@@ -1811,7 +1821,10 @@ class SolidityStorage(Storage):
 
         if not symbolic:
             # generate emptyness axiom for each array index, instead of using quantified formula; see init()
-            default_value = Select(cls.empty(addr, slot, keys), concat_keys)
+            transient = storage is ex.transient_storage
+            default_value = Select(
+                cls.empty(addr, slot, keys, transient), concat_keys
+            )
             ex.path.append(default_value == Z3_ZERO)
 
         return ex.select(storage_chunk, concat_keys, ex.storages, symbolic)
@@ -1931,10 +1944,15 @@ class GenericStorage(Storage):
         return StorageData()
 
     @classmethod
-    def empty(cls, addr: BitVecRef, loc: BitVecRef) -> ArrayRef:
+    def empty(
+        cls, addr: BitVecRef, loc: BitVecRef, transient: bool = False
+    ) -> ArrayRef:
+        # note: transient storage must not share the initial array with persistent storage,
+        # since the latter may be symbolic while the former is always empty
+        prefix = "transient_storage" if transient else "storage"
         return Array(
             # note: uuid is excluded to be deterministic
-            f"storage_{id_str(addr)}_{loc.size()}_00",
+            f"{prefix}_{id_str(addr)}_{loc.size()}_00",
             BitVecSorts[loc.size()],
             BitVecSort256,
         )
@@ -1954,7 +1972,8 @@ class GenericStorage(Storage):
         storage_addr = storage[addr]
 
         if size_keys not in storage_addr:
-            storage_addr[size_keys] = cls.empty(addr, loc)
+            transient = storage is ex.transient_storage
+            storage_addr[size_keys] = cls.empty(addr, loc, transient)
 
     @classmethod
     def load(cls, ex: Exec, storage: dict, addr: Any, loc: Word) -> Word:
@@ -1968,7 +1987,8 @@ class GenericStorage(Storage):
 
         if not symbolic:
             # generate emptyness axiom for each array index, instead of using quantified formula; see init()
-            default_value = Select(cls.empty(addr, loc), loc)
+            transient = storage is ex.transient_storage
+            default_value = Select(cls.empty(addr, loc, transient), loc)
             ex.path.append(default_value == Z3_ZERO)
 
         return ex.select(storage_addr[size_keys], loc, ex.storages, symbolic)
